@@ -1462,6 +1462,9 @@ class DiskRefsContainer(RefsContainer):
 
             if found:
                 os.remove(filename)
+                # A concurrent pack_refs() may have moved the loose value into
+                # packed-refs since the check above.
+                self._remove_packed_ref(name)
 
             self._log(
                 name,
@@ -2022,6 +2025,9 @@ class locked_ref:
             try:
                 if os.path.lexists(filename):
                     os.remove(filename)
+                    # A concurrent pack_refs() may have moved the loose value
+                    # into packed-refs since the check above.
+                    self._refs_container._remove_packed_ref(self._realname)
             except FileNotFoundError:
                 pass
 
